@@ -568,3 +568,5 @@ def run(ck, F, tier):
     # its result goes to inverse_rle with the in-force quantizer, which follows DQUANT / GQUANT (C02's rules D and H)
     from . import c02
     c02.rule_d(Scoped(ck, 'C02.'), F)
+    # "at every zig-zag position": the table that turns the cursor into a block cell is the zig-zag scan of the standard (C02's rule Z)
+    c02.rule_z(Scoped(ck, 'C02.'), F)
